@@ -204,6 +204,68 @@ def sidScan (pfx : Bool) (s : Bytes) : Option Bytes := firstSome (sidAt pfx) s
 def parseHelloScan (pfxSid : Bool) (raw : Bytes) : Bool × List Bytes × Option Bytes :=
   (hasHelloScan raw, capsScan raw, sidScan pfxSid raw)
 
+/-! ## the hello grammar the property quantifies over -/
+
+/-- the rendered namespace prefix: nothing, or the prefix name and a colon -/
+def pfxB (p : Bytes) : Bytes := if p.isEmpty then [] else p ++ [58]
+
+def otag (p name : Bytes) : Bytes := 60 :: (pfxB p ++ name)
+def ctag (p name : Bytes) : Bytes := 60 :: 47 :: (pfxB p ++ name)
+
+/-- One server hello: optional declaration / processing instruction `<?…`, one namespace prefix
+(possibly none) on every element, arbitrary attribute text on the hello element, arbitrary filler
+without `<` between elements (white space in practice), any number of capability elements with
+arbitrary URIs, optional session-id. -/
+structure Layout where
+  decl : Option Bytes          -- text after `<?` up to and including `?>`
+  pfx : Bytes                  -- namespace prefix name ([] = none)
+  attrs : Bytes                -- between `hello` and `>`
+  ws0 : Bytes                  -- before the hello element
+  ws1 : Bytes                  -- after the hello start tag
+  ws2 : Bytes                  -- after the capabilities start tag
+  ws3 : Bytes                  -- after the capabilities end tag
+  ws4 : Bytes                  -- after the session-id element
+  caps : List (Bytes × Bytes)  -- (URI, filler after the element)
+  sid : Option Bytes           -- decimal digits
+  deriving Repr
+
+def declB : Option Bytes → Bytes
+  | none => []
+  | some d => 60 :: 63 :: d
+
+def capEl (p : Bytes) (c : Bytes × Bytes) : Bytes := otag p nmCap ++ c.1 ++ ctag p nmCap ++ c.2
+
+def capsR (p : Bytes) (caps : List (Bytes × Bytes)) : Bytes := (caps.map (capEl p)).flatten
+
+def sidR (p : Bytes) : Option Bytes → Bytes → Bytes
+  | none, _ => []
+  | some ds, w => otag p nmSid ++ ds ++ ctag p nmSid ++ w
+
+def render (L : Layout) : Bytes :=
+  declB L.decl ++ L.ws0 ++ (otag L.pfx nmHello ++ L.attrs ++ [62]) ++ L.ws1 ++ otag L.pfx nmCaps ++
+    L.ws2 ++ capsR L.pfx L.caps ++ ctag L.pfx nmCaps ++ L.ws3 ++ sidR L.pfx L.sid L.ws4 ++
+    ctag L.pfx nmHelloGt
+
+def noLT (b : Bytes) : Bool := b.all (· != 60)
+
+/-- attribute text: no `<`; empty or starting with a byte that ends the element name -/
+def attrsOK (a : Bytes) : Bool :=
+  noLT a && (match a with
+    | [] => true
+    | c :: _ => !isWord c && c != 58)
+
+/-- membership in the grammar (decidable; the driver evaluates it per case as `dom`) -/
+def Layout.ok (L : Layout) : Bool :=
+  (match L.decl with
+    | none => true
+    | some d => noLT d) &&
+  L.pfx.all isWord && attrsOK L.attrs &&
+  noLT L.ws0 && noLT L.ws1 && noLT L.ws2 && noLT L.ws3 && noLT L.ws4 &&
+  L.caps.all (fun c => noLT c.1 && c.1.all (· != LF) && noLT c.2) &&
+  (match L.sid with
+    | none => true
+    | some ds => !ds.isEmpty && ds.all isDigit)
+
 /-! ## `Open` -/
 
 inductive Err | timeout | netconf
